@@ -1,4 +1,4 @@
 SPECIFICATION Spec
-INVARIANTS Theorems SemiNaiveCorrect Emit EmitPlan
+INVARIANTS Theorems SemiNaiveCorrect DesugarCorrect Emit EmitPlan
 PROPERTY MonotoneStep
 CHECK_DEADLOCK FALSE
